@@ -5,7 +5,8 @@ let () =
   | _ :: "c14" :: path :: _ -> C14.run path
   | _ :: "c04" :: path :: _ -> C04.run path
   | _ :: "c12" :: path :: _ -> C12.run path
-  | _ :: "srv" :: path :: _ -> Srv.run path
+  | _ :: "srv" :: path :: only :: _ -> Srv.run path only
+  | _ :: "srv" :: path :: _ -> Srv.run path ""
   | _ :: "stall" :: path :: _ -> Stall.run path
   | _ :: "tls" :: path :: _ -> Tls.run path
   | _ :: "c05" :: path :: _ -> C05.run path
